@@ -97,6 +97,14 @@ func (p *entryProv) get(u *Unit, key string) string {
 		u.assert("(>= " + n + " 0)")
 	}
 	u.heapTyping(key, n)
+	if strings.HasPrefix(key, "Held.") && p.tag == "entry" {
+		// a function is entered holding exactly the locks its precondition names
+		cond := "true"
+		for _, r := range u.entryHeld[key] {
+			cond += " (not (= r " + r + "))"
+		}
+		u.assert(fmt.Sprintf("(forall ((r Int)) (! (=> (and %s) (= (select %s r) 0)) :pattern ((select %s r))))", cond, n, n))
+	}
 	p.cache[key] = n
 	return n
 }
